@@ -273,6 +273,15 @@ func (w *world) dataMut(m Mut) map[string][]byte {
 		st[name] = garbage(len(d)+m.Off, uint64(m.Off)+11)
 	case "dappend":
 		st[name] = append(append([]byte{}, d...), garbage(m.Off, uint64(m.Off)+13)...)
+	case "dswap":
+		// overwritten with another protected file's content: this file and the next one exchange their contents
+		other := w.names[(m.File+1)%len(w.names)]
+		if other != name {
+			st[name], st[other] = w.orig[other], w.orig[name]
+		}
+	case "dover":
+		// overwritten with a copy of the next protected file (which itself stays intact)
+		st[name] = w.orig[w.names[(m.File+1)%len(w.names)]]
 	case "dempty":
 		st[name] = []byte{}
 	case "ddelete":
@@ -618,6 +627,9 @@ func (w *world) enumerate(thorough bool) []Mut {
 			ms = append(ms, Mut{Op: "dflip", File: fi, Off: o, Bit: 3})
 		}
 		ms = append(ms, Mut{Op: "dgarbage", File: fi, Off: 1}, Mut{Op: "dempty", File: fi}, Mut{Op: "ddelete", File: fi})
+		if len(w.names) > 1 {
+			ms = append(ms, Mut{Op: "dswap", File: fi}, Mut{Op: "dover", File: fi})
+		}
 		for k := 0; k < 8 && k*S < L; k++ {
 			ms = append(ms, Mut{Op: "dslice", File: fi, Off: k})
 		}
@@ -661,7 +673,7 @@ func mutClass(w *world, m Mut) string {
 			return "flip-par1-header"
 		}
 		return "flip-par1-entry-or-data"
-	case "dtrunc", "dflip", "dgarbage", "dempty", "ddelete", "dgrow", "dappend", "dslice":
+	case "dtrunc", "dflip", "dgarbage", "dempty", "ddelete", "dgrow", "dappend", "dslice", "dswap", "dover":
 		return "data-file-" + m.Op[1:]
 	case "prefix":
 		return "interrupted-create"
@@ -757,6 +769,9 @@ func TestCheck(t *testing.T) {
 		{Format: "par1", N: 2, Files: []scen.FileSpec{{Name: "a.dat", Size: 16384 + 200, Kind: "random", Seed: 43}, {Name: "b.bin", Size: 50, Kind: "random", Seed: 44}}},
 		// a file whose odd slices are CRC-32 twins of the even ones (same CRC-32, different bytes)
 		{Format: "par2", Slice: 8, N: 2, Files: []scen.FileSpec{{Name: "tw.dat", Size: 64, Kind: "crctwin", Seed: 51}, {Name: "o.bin", Size: 20, Kind: "random", Seed: 52}}},
+		// protected files of exactly the same length (whole slices, and with a short last slice)
+		{Format: "par2", Slice: 8, N: 2, Files: []scen.FileSpec{{Name: "p.bin", Size: 40, Kind: "random", Seed: 71}, {Name: "q.bin", Size: 40, Kind: "random", Seed: 72}, {Name: "r.bin", Size: 37, Kind: "random", Seed: 73}, {Name: "s.bin", Size: 37, Kind: "random", Seed: 74}}},
+		{Format: "par1", N: 2, Files: []scen.FileSpec{{Name: "p.bin", Size: 40, Kind: "random", Seed: 75}, {Name: "q.bin", Size: 40, Kind: "random", Seed: 76}}},
 		// whole-file duplicates above 16 KiB (same content under two protected names) plus a file of exactly 16384 bytes
 		{Format: "par2", Slice: 1000, N: 3, Files: []scen.FileSpec{{Name: "a.dat", Size: 20000, Kind: "random", Seed: 45}, {Name: "copy of a.dat", Size: 20000, Kind: "random", Seed: 45}, {Name: "x16k", Size: 16384, Kind: "random", Seed: 46}}},
 		{Format: "par1", N: 2, Files: []scen.FileSpec{{Name: "a.dat", Size: 20000, Kind: "random", Seed: 47}, {Name: "copy of a.dat", Size: 20000, Kind: "random", Seed: 47}, {Name: "x16k", Size: 16384, Kind: "random", Seed: 48}}},
